@@ -5,10 +5,44 @@ import json, os, subprocess, sys
 ROOT = os.path.dirname(os.path.dirname(os.path.abspath(__file__)))
 
 # property -> (technique, level text, level note, design ref)
+REF = "Trusts the reference XPath 1.0 evaluator (internal/xref, guarded by the selftest: golden cases, axis partition/duality laws, predicate laws) and the harness navigators; documents are bounded (depth <= 4, fan-out <= 5)."
+EXPL = " Exploration is the right level: the property quantifies over unbounded inputs, so generated search with an independent oracle, shrinking and replay is what can decide it in practice; enumerated parts are complete for their stated finite space."
+
 CHECKS = {
  "C01": ("property-based differential testing (rapid) + bounded-exhaustive axis-tuple enumeration against a reference XPath 1.0 evaluator",
-         "Generated search with an independent reference model: random documents x context nodes x predicate-free paths (reference-guided so most results are non-empty) plus a complete enumeration of all axis pairs (quick) / triples (thorough) over fixed rich documents; set(Select) and set(Evaluate) must equal the reference denotation in both directions. Exploration is the right level: the property quantifies over unbounded inputs, the enumerated part is complete for its stated finite space.",
-         "Trusts the reference evaluator (self-tested) and the harness navigators; bounded document sizes.", "DESIGN.md section 4 C01"),
+         "Random documents x context nodes x predicate-free paths (reference-guided so most results are non-empty) plus a complete enumeration of all axis pairs (quick) / triples (thorough) over fixed rich documents; set(Select) and set(Evaluate) must equal the reference denotation in both directions." + EXPL, REF, "DESIGN.md section 4 C01"),
+ "C02": ("property-based differential testing (rapid) against a reference evaluator + engine-only per-candidate oracle",
+         "Paths whose steps carry nested boolean predicates over documents with many candidates sharing ancestors/siblings; the selected set must equal the reference denotation and, independently of the reference, the candidates that a freshly compiled boolean(P) accepts one by one." + EXPL, REF + " Converted/counted node-sets are flat while KF-A/KF-B are confirmed.", "DESIGN.md section 4 C02"),
+ "C03": ("property-based differential testing (rapid) against a reference evaluator",
+         "Positional predicates on child steps (incl. after '//', followed by boolean predicates) and (flat)[n] at top level, as path start and inside predicates, over documents whose parents have different fan-out; set(Select) = reference, (flat)[n] = n-th node in document order." + EXPL, REF, "DESIGN.md section 4 C03"),
+ "C04": ("stateful property-based testing (rapid, generated call histories) with a fresh-compile differential oracle",
+         "Histories of Select/Evaluate calls (full, abandoned half-way, other contexts, other document, unrelated recompile in between) on ONE compiled expression; after every action the observation must equal that of a freshly compiled expression." + EXPL, "Self-differential: trusts the engine on a fresh compile (its values are decided by C01-C03/C07-C09).", "DESIGN.md section 4 C04"),
+ "C05": ("property-based stress under the Go race detector (rapid-generated goroutine plans, start barrier) with a sequential differential oracle",
+         "2-8 goroutines share one *Expr (Select / Evaluate / Compile of the same text / regex functions / two interleaved iterators); the race detector's log must not grow, the process must survive (crash journal) and every result must equal the sequential one. Exploration with sampled schedules is what this technique can give; interleavings are not enumerated.", "Schedules are sampled; a race needing a rare window can be missed. Trusts the Go race detector.", "DESIGN.md section 4 C05"),
+ "C06": ("property-based testing with byte-level mutation (rapid) + bounded-exhaustive deep-nesting cases run with a crash journal + native coverage-guided fuzzing (thorough)",
+         "Valid/unconstrained/soup expressions with 0-3 byte mutations under every namespace configuration, every recursive grammar construct nested to 10^5 (8 MB stack) / 3*10^6 (default stack), and go-fuzz in the thorough tier; Compile returns exactly one of (expr, err), nothing panics, the process survives, MustCompile is usable." + EXPL, "Termination is decided within an explicit wall-clock margin with an isolated retry.", "DESIGN.md section 4 C06"),
+ "C07": ("property-based differential testing (rapid) against a reference evaluator",
+         "Exactly the operand-type matrix of the statement over documents with numeric, non-numeric, empty and mixed values (incl. NaN/Infinity operands and observable short-circuit); Evaluate and the predicate form must equal the reference; no panic." + EXPL, REF, "DESIGN.md section 4 C07"),
+ "C08": ("property-based differential testing (rapid) against a reference evaluator with exact float comparison",
+         "Arithmetic trees of depth <= 4 over literals, document-derived numbers, NaN/Infinity, mod/floor/ceiling/number/count/sum/string-length and string() of finite small values; bit-exact agreement with the reference." + EXPL, REF + " Same IEEE operations in the same order on both sides.", "DESIGN.md section 4 C08"),
+ "C09": ("property-based differential testing (rapid) + exhaustive substring sweep against a reference evaluator",
+         "String-function trees of depth <= 4 over an ASCII pool and flat node-set arguments, plus the complete sweep of substring(s, start[, length]) for |s| <= 6 and start/length in -3..9 step 0.5." + EXPL, REF, "DESIGN.md section 4 C09"),
+ "C10": ("bounded-exhaustive enumeration of operator chains with a parser round-trip oracle (verif hook) + property-based metamorphic testing (whitespace, abbreviations)",
+         "All chains over the 14 binary operators up to length 5 (quick) / 6 (thorough), unary-minus placements and path-tier operands, compared with a table-driven reference parse through the parse-tree dump hook; for generated expressions the dump equals the AST, whitespace variants and abbreviation expansions keep dump and value." + EXPL, "Trusts the add-only hook VerifParseDump to render the parse tree faithfully.", "DESIGN.md section 4 C10"),
+ "C11": ("property-based differential testing (rapid) on a hostile name alphabet with a multiset oracle",
+         "A | B (| C) and p/(s1, s2[, s3]) over documents whose names/values are built to collide under ambiguous identity keys; the multiset of nodes yielded must be the reference set union, each node once." + EXPL, REF + " True 64-bit hash collisions are not searched for.", "DESIGN.md section 4 C11"),
+ "C12": ("property-based differential + metamorphic testing (rapid): sequence oracle for flat paths, protocol relations for all node-set expressions",
+         "Flat paths must yield the reference's document-order sequence; for any node-set expression Evaluate = Select as sequences, count() = length, reverse() = reversed, MoveNext stays false after exhaustion, Current() is stable and on the reported node." + EXPL, REF, "DESIGN.md section 4 C12"),
+ "C13": ("property-based metamorphic testing (rapid), engine against engine, pinned by the reference evaluator",
+         "Absolute paths from every start node vs. the root; relative paths vs. addr(n)/p from the root; P[true()], (P), P|P, not(not(P)) identities; all also compared with the reference so a common-mode error cannot pass." + EXPL, REF, "DESIGN.md section 4 C13"),
+ "C14": ("property-based testing (rapid) over namespace configurations with the statement transcribed as oracle",
+         "Documents with 0-3 namespaces under varying prefixes x both navigator flavours x namespace maps (none, binding, re-binding, missing, empty, nil) x name tests on all axes and the three name functions; results must follow the documented matching rule, unbound prefixes must be compile errors; nothing is asserted where the statement is silent." + EXPL, REF, "DESIGN.md section 4 C14"),
+ "C15": ("property-based testing with an unconstrained expression grammar and token soup (rapid) + exhaustive ill-typed call/operator enumeration + native fuzzing (thorough), validity-predicate oracle with an operation budget",
+         "Whatever Compile accepts is evaluated (Select and Evaluate, drained) on small documents: it must complete or panic with a non-runtime error value, return a documented type, and terminate within a navigator-operation budget." + EXPL, "A panic whose value is an error but not a runtime.Error counts as deliberate. KF-round (round() returns int) is a recorded known finding.", "DESIGN.md section 4 C15"),
+ "C16": ("property-based differential testing against Go's regexp (rapid) + stateful cache histories with invariants + goroutine block under the race detector",
+         "matches()/replace() over a regex grammar with up to 12 groups vs. regexp and a manual expansion; cache histories over capacities 0..5 with failing loads and a swapped-in RegexpCache, checked after every step (exact value, bounded size, no load for cached keys, failed loads not remembered); concurrent gets under -race." + EXPL, "Trusts Go's regexp and the verif-tagged cache accessors; schedules are sampled.", "DESIGN.md section 4 C16"),
+ "C17": ("property-based testing with exhaustive damage positions (rapid-generated valid expressions, every position of every damage operator)",
+         "Every applicable position of every damage class of the statement is applied to generated valid expressions; Compile must return an error. Only damages that are invalid by construction are generated." + EXPL, "Assumes the damage operators are invalid by construction as argued in DESIGN.md.", "DESIGN.md section 4 C17"),
 }
 
 NOT_BUILT = "check not built yet in this round (work in progress; decided by generated search as designed in DESIGN.md section 4)"
